@@ -4,6 +4,7 @@ package pubsub
 // event queue, output collection, event-log digest, violations, probes.
 
 import (
+	_ "unsafe"
 	"os"
 	"container/heap"
 	"context"
@@ -260,6 +261,7 @@ func newSim(plan *Plan) *sim {
 	}
 	verifrt.SetSeed(plan.Seed)
 	simrand.Reseed(plan.Seed)
+	runtimeVerifSelectSeed = uint32(verifrt.HashBytes(plan.Seed, "select")) | 1
 	return s
 }
 
@@ -459,13 +461,19 @@ func (s *sim) collect() {
 	// the queue before any writer takes something out)
 	if len(pops) > 0 {
 		for _, pw := range pops {
-			pw.name = s.queueBase(pw.q)
+			if pw.q != nil {
+				pw.name = s.queueBase(pw.q)
+			}
 		}
 		sort.SliceStable(pops, func(i, j int) bool { return pops[i].name < pops[j].name })
 		for _, pw := range pops {
 			pw := pw
-			pw.name = s.queueName(pw.q, pw.name)
-			s.asap("writer-takes "+pw.name, func() { close(pw.ch) })
+			if pw.q != nil {
+				pw.name = s.queueName(pw.q, pw.name)
+				s.asap("writer-takes "+pw.name, func() { close(pw.ch) })
+			} else {
+				s.asap("validated-handoff "+pw.name, func() { close(pw.ch) })
+			}
 			s.lastEvent.writer = true
 		}
 	}
@@ -505,7 +513,7 @@ var debugState = os.Getenv("VERIF_DEBUG_STATE") != ""
 // scheduler-owned stream writers (verifPopTake hook)
 
 type popWaiter struct {
-	q    *rpcQueue
+	q    *rpcQueue // nil for the validated-message turnstile (name is preset)
 	ch   chan struct{}
 	name string
 }
@@ -520,6 +528,21 @@ func (s *sim) scheduleWriters() {
 			return
 		}
 		pw := &popWaiter{q: q, ch: make(chan struct{})}
+		s.mu.Lock()
+		s.popWait = append(s.popWait, pw)
+		s.mu.Unlock()
+		s.poke()
+		<-pw.ch
+	}
+	// Validated messages are handed to the event loop one per quiescence, ordered by content: with
+	// several validation workers or asynchronous validators the hand-off order would otherwise be
+	// the Go scheduler's choice.
+	verifYieldMsgFn = func(msg *Message, point int) {
+		if point != verifSendValidated {
+			return
+		}
+		b, _ := msg.Message.Marshal()
+		pw := &popWaiter{ch: make(chan struct{}), name: fmt.Sprintf("~msg %x from %s", shortHash(b), shortPeer(msg.ReceivedFrom))}
 		s.mu.Lock()
 		s.popWait = append(s.popWait, pw)
 		s.mu.Unlock()
@@ -560,6 +583,7 @@ func (s *sim) queueName(q *rpcQueue, base string) string {
 // releaseWriters (teardown): let every parked writer go.
 func (s *sim) releaseWriters() {
 	verifYieldQueueFn = nil
+	verifYieldMsgFn = nil
 	s.mu.Lock()
 	pops := s.popWait
 	s.popWait = nil
@@ -685,5 +709,11 @@ func shortPeer(p peer.ID) string {
 }
 
 func synctestWait() { synctest.Wait() }
+
+// runtimeVerifSelectSeed is the seed of the select poll order inside bubbles; the variable lives in
+// the (overlaid) runtime package, see cmd/vrewrite.
+//
+//go:linkname runtimeVerifSelectSeed runtime.verifSelectSeed
+var runtimeVerifSelectSeed uint32
 
 func (s *sim) bgctx() context.Context { return context.Background() }
